@@ -275,7 +275,12 @@ def main(ctx: Ctx) -> int:
             ctx.violation(f"C16|Render|{type(e).__name__}|{kind}", f"{type(e).__name__}: {e}", {"desc": desc})
             continue
         if k < ndyn or kind in ("grain", "hydrogen-early", "many-carriers", "deuterated"):
-            traces += dynamic_traces(ctx, len(traces) + 1, desc, net, k, rng)
+            try:
+                traces += dynamic_traces(ctx, len(traces) + 1, desc, net, k, rng)
+            except MachineryError:
+                raise
+            except Exception as e:   # noqa   (the generator itself refused a network it rendered a moment ago for the static tables)
+                ctx.violation(f"C16|Render|{type(e).__name__}|{kind},whole project", f"rendering the whole project raised {type(e).__name__}: {e}", {"desc": desc})
         if kind == "random" and k % 2 == 0:
             # a network object, rendered once, then remove_reaction takes an element out of it entirely: the emitted tables must be those
             # of what is left.  (The element's atom must itself react, so that nothing keeps the element alive.)
